@@ -23,9 +23,9 @@ func init() {
 				Flavours: []string{"plain", "cover"},
 				Blocks:   16,
 				Procs:    16,
-				Rule: "exhaustive over a universe of 5 elements: every (receiver, argument) pair of the 34 operands {nil, empty non-nil, 32 subsets incl. a second empty} for Intersects/IsSubset/Equals/AddAll/RemoveAll; every receiver x every argument list of length <= 3 (<= 4 thorough) with repetitions for HasAll/HasAny/Add/Remove/New; every 0..3-operand combination for Intersect; Clone/Keys/Values/Range/NewSize/Slice/Append/Pop/Clear/IsEmpty/Len/Has on every operand; results checked for value, non-nilness and non-aliasing (mutating the result must not change an argument and vice versa). " +
+				Rule: "exhaustive over a universe of 5 elements: every (receiver, argument) pair of the 34 operands {nil, empty non-nil, 32 subsets incl. a second empty} for Intersects/IsSubset/Equals/AddAll/RemoveAll; every receiver x every argument list of length <= 3 (<= 4 thorough) with repetitions for HasAll/HasAny/Add/Remove/New; every 0..3-operand combination and random 4..12-operand combinations for Intersect; Append into prefixes with every amount of spare capacity from 0 to len+6; Clone/Keys/Values/Range/NewSize/Slice/Append/Pop/Clear/IsEmpty/Len/Has on every operand; results checked for value, non-nilness and non-aliasing (mutating the result must not change an argument and vice versa). " +
 					"Histories of Add/AddAll/Remove/RemoveAll/Pop/Clear over two sets (the second used as argument of the first), starting from nil or non-nil, with membership and Len of BOTH sets after every step. distinct = enumerated operand tuples, histories by hash; non-trivial = at least one operand is non-empty",
-				Required:     []string{"binary_predicate_pairs", "variadic_cases", "variadic_with_duplicates", "intersect_cases", "aliasing_checks", "pop_checks", "history_steps", "nil_receiver_cases"},
+				Required:     []string{"binary_predicate_pairs", "variadic_cases", "variadic_with_duplicates", "intersect_cases", "aliasing_checks", "pop_checks", "history_steps", "nil_receiver_cases", "intersect_many_operands", "append_spare_capacity_cases"},
 				Exhaustive:   true,
 				Assumptions:  []string{"reference: 5-bit masks"},
 				CoverPkgs:    []string{"github.com/creachadair/mds/mapset"},
@@ -452,6 +452,62 @@ func runC18(c *fw.Ctx) {
 			c.Sample(map[string]any{"call": "Intersect([0 2 3], nil, [2])", "result": fmt.Sprint(mapset.Intersect(mapset.New(0, 2, 3), nil, mapset.New(2)))})
 			c.Sample(map[string]any{"call": "New(0,1).IsSubset(nil)", "result": mapset.New(0, 1).IsSubset(nil)})
 		}
+	}
+	idx += 100
+	// Intersect with many operands (4..12), Append into buffers with every amount of spare capacity
+	if c.Begin(idx + c.Block) {
+		r := c.Rng()
+		var n int64
+		for k := 0; k < c.Pick(400, 6000); k++ {
+			ops := make([]int, 4+r.IntN(9))
+			base := 2 + r.IntN(1<<c18U)
+			for i := range ops {
+				switch r.IntN(6) {
+				case 0:
+					ops[i] = r.IntN(c18N)
+				case 1:
+					ops[i] = r.IntN(2) // nil or empty
+				default:
+					// supersets of a common base, so that the result is often non-empty
+					ops[i] = 2 + int(uint(base-2)|uint(r.IntN(1<<c18U)))
+				}
+			}
+			if r.IntN(3) == 0 {
+				// make exactly one late operand lack an element the others share
+				ops[len(ops)-1-r.IntN(min(3, len(ops)))] = 2 + int(uint(base-2)&^(1<<uint(r.IntN(c18U))))
+			}
+			m.intersect(ops)
+			n++
+		}
+		c.Add("intersect_many_operands", n)
+		for i := c.Block; i < c18N; i += c.NBlocks {
+			s, sm := c18mk(i)
+			for spare := 0; spare <= len(s)+6; spare++ {
+				pre := make([]int, 2, 2+spare)
+				pre[0], pre[1] = 77, 78
+				backing := pre[:cap(pre)]
+				for j := 2; j < len(backing); j++ {
+					backing[j] = -9 // junk beyond the prefix must never show up in the result
+				}
+				got := s.Append(pre)
+				c.Add("append_spare_capacity_cases", 1)
+				n++
+				ok := len(got) == 2+bitsOf(sm) && got[0] == 77 && got[1] == 78
+				var gm uint
+				for _, v := range got[min(2, len(got)):] {
+					if v < 0 || v >= c18U || gm>>uint(v)&1 == 1 {
+						ok = false
+						break
+					}
+					gm |= 1 << uint(v)
+				}
+				if !ok || gm != sm {
+					m.fail(map[string]any{"receiver": c18name(i), "prefix_len": 2, "spare_capacity": spare}, "Append(prefix) = %v, want the prefix [77 78] followed by each member exactly once", got)
+				}
+			}
+		}
+		c.Evals(n)
+		c.SeenEnum(n)
 	}
 	idx += 100
 	// histories over two sets
